@@ -141,6 +141,49 @@ def write_cooler(path, ax, symm, cols, px, bins_extra=False, mode="w"):
                          ordered=True, mode=mode)
 
 
+def _canon_vals(kind, vals):
+    out = []
+    for v in vals:
+        if kind == "S" or isinstance(v, (bytes, str)):
+            out.append(v.decode() if isinstance(v, bytes) else str(v))
+        elif kind == "f":
+            out.append("nan" if v != v else float(v))
+        else:
+            out.append(int(v))
+    return out
+
+
+def bins_extra_of(bg):
+    """every bins column besides chrom/start/end: {name: [dtype kind + bits | 'str', values]} (NaN spelled 'nan')"""
+    d = {}
+    for nm in sorted(bg.keys()):
+        if nm in ("chrom", "start", "end"):
+            continue
+        dt = bg[nm].dtype
+        kind = "S" if dt.kind in "SOU" else dt.kind
+        d[nm] = ["str" if kind == "S" else f"{dt.kind}{dt.itemsize * 8}", _canon_vals(kind, bg[nm][:].tolist())]
+    return d
+
+
+def bins_df_extra(ax):
+    """a bin table with extra per-bin columns of four kinds: float with NaN, float, integer, string"""
+    df = bins_df(ax)
+    n = len(df)
+    df["weight"] = [np.nan if i % 3 == 1 else 0.5 + 0.25 * i for i in range(n)]
+    df["gc"] = [0.125 * (i + 1) for i in range(n)]
+    df["nsites"] = np.array([7 * i - 3 for i in range(n)], dtype=np.int64)
+    # fixed-width byte strings: a column of Python str objects is refused by create() on the ordered AND the unordered
+    # path alike ("Size must be positive"), so it cannot distinguish the two
+    df["tag"] = np.array([f"b{i}x" for i in range(n)], dtype="S4")
+    return df
+
+
+def expected_bins_extra(ax):
+    df = bins_df_extra(ax)
+    return {"gc": ["f64", _canon_vals("f", df["gc"].tolist())], "nsites": ["i64", _canon_vals("i", df["nsites"].tolist())],
+            "tag": ["str", [f"b{i}x" for i in range(len(df))]], "weight": ["f64", _canon_vals("f", df["weight"].tolist())]}
+
+
 def read_raw(uri, want_cols=None):
     """raw content of a cooler group, independent of the cooler API"""
     path, _, grp = str(uri).partition("::")
@@ -175,7 +218,7 @@ def read_raw(uri, want_cols=None):
         return {"cols": cols, "px": px, "off": off, "sum": tot, "nnz": int(a["nnz"]),
                 "symm": str(a["storage-mode"]) == "symmetric-upper", "nbins": int(a["nbins"]),
                 "bintype": str(a["bin-type"]), "rows_on_disk": len(b1),
-                "bins_cols": sorted(g["bins"].keys()), "bins": btab}
+                "bins_cols": sorted(g["bins"].keys()), "bins": btab, "bins_extra": bins_extra_of(bg)}
 
 
 def coq_px(px):
@@ -200,7 +243,8 @@ def parse_obs(v):
 
 def obs_of_raw(raw):
     return {"symm": raw["symm"], "cols": [list(c) for c in raw["cols"]], "off": raw["off"],
-            "px": raw["px"], "sum": raw["sum"], "nnz": raw["nnz"], "bins": raw.get("bins")}
+            "px": raw["px"], "sum": raw["sum"], "nnz": raw["nnz"], "bins": raw.get("bins"),
+            "bins_extra": raw.get("bins_extra", {})}
 
 
 def expected_bins(ax):
